@@ -258,6 +258,37 @@ impl Property for Multisets {
             o.fail("vectored-differs", format!("insert_vectored of split items {vect:?} != insert {fwd:?}"));
             return o;
         }
+        // remove_vectored of the same pieces undoes it; no pieces at all is the empty item
+        let mut unv = vect;
+        for i in 0..n {
+            let it = &c.items[i];
+            let mut cuts: Vec<usize> = c.splits[i].iter().map(|s| vcore::gens::sel(*s, it.len() + 1)).collect();
+            cuts.sort();
+            let mut pieces: Vec<&[u8]> = vec![];
+            let mut prev = 0;
+            for cut in cuts {
+                pieces.push(&it[prev..cut]);
+                prev = cut;
+            }
+            pieces.push(&it[prev..]);
+            unv.remove_vectored(&pieces);
+        }
+        let (mut e1, mut e2) = (Setsum::default(), Setsum::default());
+        e1.insert_vectored(&[]);
+        e2.insert(&[]);
+        if unv != Setsum::default() || e1 != e2 {
+            o.fail("remove-vectored-not-inverse", format!("remove_vectored of the inserted pieces leaves {unv:?}; insert_vectored(&[]) = {e1:?}, insert(empty) = {e2:?}"));
+            return o;
+        }
+        // the in-place operators are the operators
+        let mut acc = fwd;
+        acc += vect;
+        let mut back = acc;
+        back -= vect;
+        if acc != fwd + vect || back != fwd {
+            o.fail("assign-operators-differ", format!("+= / -= disagree with + / - for {fwd:?}"));
+            return o;
+        }
         // digests round-trip
         if Setsum::from_digest(fwd.digest()) != fwd {
             o.fail("digest-roundtrip", "from_digest(digest()) differs".to_string());
@@ -491,6 +522,24 @@ impl Property for Framing {
         }
         if s2 != s {
             o.fail("framing-insert-differs", "insert(KeyValueRef) differs from put/del".to_string());
+            return o;
+        }
+        // the wrapper's operators and digests are those of the raw setsum
+        let mut first = sst::Setsum::default();
+        let mut second = sst::Setsum::default();
+        for (i, (k, t, v)) in c.entries.iter().enumerate() {
+            (if i % 2 == 0 { &mut first } else { &mut second }).insert(sst::KeyValueRef { key: k, timestamp: *t, value: v.as_deref() });
+        }
+        let mut acc = first;
+        acc += second;
+        let mut back = acc;
+        back -= second;
+        if first + second != s || acc != s || s - second != first || back != first || (first + second).into_inner() != first.into_inner() + second.into_inner() {
+            o.fail("wrapper-operators", format!("sst::Setsum +, +=, -, -= disagree with each other or with the raw setsum for entries {:?}", c.entries.len()));
+            return o;
+        }
+        if s.digest() != s.into_inner().digest() || s.hexdigest() != s.into_inner().hexdigest() || sst::Setsum::from_digest(s.digest()) != s || sst::Setsum::from_hexdigest(&s.hexdigest()) != Some(s) {
+            o.fail("wrapper-digests", format!("sst::Setsum digest / hexdigest / from_digest / from_hexdigest do not round-trip for {s:?}"));
         }
         o
     }
